@@ -1,7 +1,7 @@
 // C02 driver: Union (with reported / pre-filled maps), UnionDisjointStates (only for disjoint operands),
 // Intersection and IntersectionBU (with reported product maps), operands re-read afterwards.
 // case:   bin <T A> <T B> PL <n> {k v}* PR <n> {k v}* [SHARE <k>]
-// output: U <T> ML <n> {k v}* MR <n> {k v}* D (<T> | SKIP) X <T> PM <n> {p q s}* XB <T> PM <n> {p q s}* XR <T> PM .. XBR <T> PM .. I <T A> <T B>   (XR/XBR: same call again, map of the first call pre-filled)
+// output: U <T> ML <n> {k v}* MR <n> {k v}* D (<T> | SKIP) X <T> PM <n> {p q s}* XB <T> PM <n> {p q s}* XR <T> PM .. XBR <T> PM .. UN <T> XN <T> XBN <T> I <T A> <T B>   (XR/XBR: same call again, map of the first call pre-filled; UN/XN/XBN: called without the optional maps)
 #include "common.hh"
 #include <map>
 using namespace vd;
@@ -49,6 +49,10 @@ int main() {
 			// the same calls again with the maps of the first calls handed in (caller-supplied, pre-filled product maps)
 			{ Aut x = Aut::Intersection(A, B, &pmT); os << " XR " << showTA(obsAut(x)); showPM(os, pmT); }
 			{ Aut x = Aut::IntersectionBU(A, B, &pmB); os << " XBR " << showTA(obsAut(x)); showPM(os, pmB); }
+			// the same operations without the optional map arguments
+			{ Aut x = Aut::Union(A, B); os << " UN " << showTA(obsAut(x)); }
+			{ Aut x = Aut::Intersection(A, B); os << " XN " << showTA(obsAut(x)); }
+			{ Aut x = Aut::IntersectionBU(A, B); os << " XBN " << showTA(obsAut(x)); }
 			os << " I " << showTA(obsAut(A)) << ' ' << showTA(obsAut(B));
 			return os.str();
 		});
